@@ -50,6 +50,13 @@ PARTIAL = [
     " (the permutation/split/assignment is read off the real result and the Lean skeleton must reproduce the resulting state "
     "exactly, bin contents in order and cellBinX/Y), and by the code's own check() asserts, which are compiled in.",
     _PASSES_H4 if HAS_H4 else _PASSES_NO_H4,
+    "demand updates on a live placement (`updateCellDemand(circuit)` accepted / refused with the exception caught, "
+    "`updateCellDemand(vector)`): not part of the Lean theorems (`alloc_inv` is stated for a fixed demand vector); the Lean driver "
+    "models the call branch for branch (`updemand`: a change to/from zero is refused and nothing is written; `setdemand`) in the "
+    "differential stream, and the direct oracle evaluates the statement (allocation, demand totals, coordinates) with the demands the "
+    "object reports right after each update — at every stage of the object's life — and through the steps that follow it, on "
+    "explored histories only (counted: update_circuit_accepted, update_circuit_refused_(exception_caught), update_refused_area_*, "
+    "update_refused_then_*, update_vector_overload_accepted, update_on_fresh_placement / update_after_*).",
     "reported coordinates inside the bin (`spreadCoordX/Y`, float): owned by C06 (`spread_inside` over Rat); here it is "
     "evaluated by the direct oracle on every explored state (closed interval, binary32 as computed by the code).",
     "`capacity = free row area`: proved in Lean for every circuit whose rows have the C01 domain shape (`RowsDom`: uniform positive "
